@@ -1,4 +1,5 @@
 let () =
   match Sys.argv with
   | [| _; "fmt" |] -> Run_fmt.run ()
+  | [| _; "buf" |] -> Run_buf.run ()
   | _ -> prerr_endline "usage: modelrun <engine>"; exit 2
